@@ -377,9 +377,16 @@ def r10_3(chk, repo, cr):
         defs["ordering"].key() == "numpy.argsort($elements)" and alld["pos"][0].key() == "$uc['frac_pos']" and alld["elements"][0].key() == "$uc['element']"
     chk.ob("R10.3", VW, wq, "coordinates and elements are permuted by one and the same argsort of the elements", okperm,
            found=str({k: [str(x) for x in v] for k, v in alld.items() if k in ("coord", "elements", "ordering")}))
+    ek, ck = defs["els"].key(), defs["counts"].key()
+    if "element_counts" in defs:
+        okcnt = defs["element_counts"].key() == "collections.Counter($elements'1)" and "$element_counts.keys()" in ek \
+            and "$element_counts.values()" in ck and ".symbol" in ek
+    else:
+        # np.unique(sorted elements, return_counts=True): values ascending, counts in the same order ([0] feeds the symbols, [1] the counts)
+        uq = "numpy.unique($elements'1, return_counts=True)"
+        okcnt = f"{uq}[0]" in ek and f"{uq}[1]" in ck and ".symbol" in ek and f"{uq}[1]" not in ek and f"{uq}[0]" not in ck
     chk.ob("R10.3", VW, wq, "symbols and run lengths come from one Counter of the sorted elements (keys and values in the same order)",
-           defs["element_counts"].key() == "collections.Counter($elements'1)" and "$element_counts.keys()" in defs["els"].key()
-           and "$element_counts.values()" in defs["counts"].key() and ".symbol" in defs["els"].key(), found=f"{defs['els']} / {defs['counts']}"[:200])
+           okcnt, found=f"{defs['els']} / {defs['counts']}"[:200])
     chk.ob("R10.3", VW, wq, "'Direct' coordinates are the fractional positions", space_of(alld["pos"][0]) == "frac" and "$coord" in defs["coords"].key(),
            found=str(alld["pos"][0]))
     rq = "parse_poscar"
